@@ -14,10 +14,10 @@ Definition mult (g : Z) (l : list Z) : Z := Z.of_nat (length (filter (fun a => a
 Definition job_usage (s : state) (b j r : Z) : Z :=
   rsum (fun b' j' a' r' => if (b' =? b) && (j' =? j) && (r' =? r) then billed_of s b' j' a' else 0) (attempt_res s).
 
-(* ... resource r and the jobs of batch b whose group has g among its ancestors-or-self *)
+(* ... resource r and the jobs of batch b whose group has g among its ancestors-or-self (each such row counted once) *)
 Definition group_usage (s : state) (b g r : Z) : Z :=
-  rsum (fun b' j' a' r' => if (b' =? b) && (r' =? r)
-                           then mult g (anc_ids s b' (jgroup s b' j')) * billed_of s b' j' a' else 0) (attempt_res s).
+  rsum (fun b' j' a' r' => if (b' =? b) && (r' =? r) && existsb (Z.eqb g) (anc_ids s b' (jgroup s b' j'))
+                           then billed_of s b' j' a' else 0) (attempt_res s).
 
 (* ... resource r and the jobs of the batches of billing project bp and user u *)
 Definition bp_user_usage (s : state) (bp u r : Z) : Z :=
@@ -41,6 +41,18 @@ Proof.
     + destruct (r' =? r); cbn [andb] in *; exact IH.
 Qed.
 
+Lemma mult_nodup g l : NoDup l -> mult g l = if existsb (Z.eqb g) l then 1 else 0.
+Proof.
+  unfold mult. induction l as [|a l IH]; intros Hnd; cbn [filter existsb length]; [reflexivity|].
+  inversion Hnd as [|? ? Hn Hnd']; subst. specialize (IH Hnd').
+  destruct (a =? g) eqn:E.
+  - assert (a = g) by lia. subst a. rewrite Z.eqb_refl. cbn [orb length].
+    destruct (existsb (Z.eqb g) l) eqn:Ex.
+    + exfalso. apply existsb_exists in Ex. destruct Ex as (y & Hy & Ey). assert (y = g) by lia. subst y. contradiction.
+    + rewrite Nat2Z.inj_succ, IH. reflexivity.
+  - replace (g =? a) with false by lia. cbn [orb]. exact IH.
+Qed.
+
 Lemma job_usage_ok s b j r : BInv s -> agg_value (agg_job s) [b; j; r] = job_usage s b j r.
 Proof.
   intros [_ A]. unfold agg_value. rewrite (ai_job s A). unfold usage, job_usage. apply rsum_ext_in.
@@ -50,9 +62,15 @@ Qed.
 
 Lemma group_usage_ok s b g r : BInv s -> agg_value (agg_group s) [b; g; r] = group_usage s b g r.
 Proof.
-  intros [_ A]. unfold agg_value. rewrite (ai_group s A). unfold usage, group_usage. apply rsum_ext_in.
-  intros b' j' a' r' q _. unfold kf_group. rewrite kcount_group. destruct (_ && _); lia.
+  intros [I A]. unfold agg_value. rewrite (ai_group s A). unfold usage, group_usage. apply rsum_ext_in.
+  intros b' j' a' r' q _. unfold kf_group. rewrite kcount_group.
+  rewrite (mult_nodup g _ (gi_nodup s (si_g s I) b' (jgroup s b' j'))).
+  destruct ((b' =? b) && (r' =? r)); cbn [andb]; [|lia]. destruct (existsb _ _); lia.
 Qed.
+
+(** the ancestors-or-self ids of every group are pairwise distinct, so the membership test above counts a row once *)
+Lemma anc_ids_nodup s b g : BInv s -> NoDup (anc_ids s b g).
+Proof. intros [I _]. apply (gi_nodup s (si_g s I)). Qed.
 
 Lemma bp_usage_ok s bp u r : BInv s -> agg_value (agg_bp s) [bp; u; r] = bp_user_usage s bp u r.
 Proof.
